@@ -78,6 +78,9 @@ class B:
             return lh.scale(q(inst["c"]))
         if comp == "sum":
             return lh + self.base(inst["kind2"])
+        if comp == "avg":
+            v = self.fld([.125, -.125])
+            return ift.AveragedEnergy(lh, [v, -v])
         raise tlcmod.MachineryError(comp)
 
     def dense(self, op):
@@ -114,6 +117,7 @@ def check_instance(b, inst, variant=0):
         if not np.allclose(M, Mexp, rtol=RTOL, atol=ATOL):
             out.append(("fisher", "metric %s differs from the Fisher information %s" % (np.round(M, 8).tolist(), np.round(Mexp, 8).tolist())))
         # the coordinate transformation: metric = pull-back of the identity
+        # (AveragedEnergy is not a likelihood energy: its get_transformation is outside C11's statement and is not judged - see DESIGN S.5)
         if inst["comp"] in ("plain", "chain", "sum") and hasattr(op, "get_transformation"):
             try:
                 tr = op.get_transformation()
@@ -216,6 +220,46 @@ def vcg_checks(b):
     return out, n
 
 
+def block_gauss_checks(b, insts):
+    """the Gaussian energy over a MultiDomain with a block-diagonal inverse covariance (one block per key): same gradient and Fisher metric
+    as the flat instance, and the coordinate transformation (BlockDiagonalOperator.get_sqrt) pulls the identity back to the metric"""
+    ift = b.ift
+    out = []
+    n = 0
+    d1 = ift.DomainTuple.make(ift.UnstructuredDomain(1))
+    md = ift.MultiDomain.make({"a": d1, "b": d1})
+    mf = lambda v: ift.MultiField.from_dict({"a": ift.makeField(d1, np.array([v[0]])), "b": ift.makeField(d1, np.array([v[1]]))})
+    for inst in insts:
+        if inst["kind"] != "gaussian" or inst["comp"] != "plain":
+            continue
+        n += 1
+        try:
+            icov = ift.BlockDiagonalOperator(md, {"a": ift.makeOp(ift.makeField(d1, np.array([4.])), sampling_dtype=np.float64),
+                                                  "b": ift.makeOp(ift.makeField(d1, np.array([.25])), sampling_dtype=np.float64)})
+            op = ift.GaussianEnergy(data=mf([1., -2.]), inverse_covariance=icov)
+            x = mf([q(v) for v in inst["x"]])
+            lin = op(ift.Linearization.make_var(x, want_metric=True))
+            g = np.array([lin.gradient["a"].asnumpy()[0], lin.gradient["b"].asnumpy()[0]])
+            gexp = np.array([q(v) for v in inst["g"]])
+            if not np.allclose(g, gexp, rtol=RTOL, atol=ATOL):
+                out.append(("block-gradient", "block-diagonal covariance: gradient %s differs from %s" % (g.tolist(), gexp.tolist())))
+            M = np.array([[lin.metric(mf(e))[k].asnumpy()[0] for e in ((1., 0.), (0., 1.))] for k in ("a", "b")])
+            Mexp = qm(inst["M"])
+            if not np.allclose(M, Mexp, rtol=RTOL, atol=ATOL):
+                out.append(("block-fisher", "block-diagonal covariance: metric %s differs from the Fisher information %s" % (M.tolist(), Mexp.tolist())))
+            tr = op.get_transformation()[1]
+            cols = []
+            for e in ((1., 0.), (0., 1.)):
+                r = tr(mf(e))
+                cols.append(np.array([r["a"].asnumpy()[0], r["b"].asnumpy()[0]]))
+            Jt = np.array(cols).T
+            if not np.allclose(Jt.conj().T @ Jt, Mexp, rtol=1e-9, atol=1e-11):
+                out.append(("block-transformation", "block-diagonal covariance: Jt^H Jt = %s differs from the metric %s" % ((Jt.conj().T @ Jt).tolist(), Mexp.tolist())))
+        except Exception as e:
+            out.append(("block-raises", "%s: %s" % (type(e).__name__, str(e)[:160])))
+    return out, n
+
+
 def complex_gauss_checks(b):
     """complex Gaussian energies behind complex linear models: value 1/2 r^H N^-1 r, metric = A^H N^-1 A (Hermitian, positive)"""
     ift = b.ift
@@ -279,11 +323,14 @@ def run(ctx):
                         i1["kind"], i1["comp"], [q(t) for t in i1["x"]], [q(t) for t in i0["x"]], v1 - v0, e1 - e0), replay=dict(instance=i1, other=i0))
         vv, nv = vcg_checks(b)
         cv, nc = complex_gauss_checks(b)
-        nv += nc
+        bv, nb = block_gauss_checks(b, insts)
+        nv += nc + nb
     for kind, msg in vv:
         ctx.violation(dict(kind=kind, energy="vcgauss"), msg, replay=dict(what="vcg"))
     for kind, msg in cv:
         ctx.violation(dict(kind=kind, energy="gaussian-complex"), msg, replay=dict(what="complex-gauss"))
+    for kind, msg in bv:
+        ctx.violation(dict(kind=kind, energy="gaussian-block"), msg, replay=dict(what="block-gauss"))
     for k in range(nv + nd):
         ctx.case(("extra", k))
     ctx.traces += len(insts)
